@@ -73,6 +73,35 @@ def w_rows(cfg, tier='quick'):
         for k, ok in css.items():
             col.record(f'C02/css/{k}', 'unsat' if ok else 'sat', 0, False, dict(fact=k) if not ok else None,
                        'ground fact')
+    # the same facts on an object whose derived data were computed BEFORE it was deformed (caches warmed):
+    # masks, is_css, Hx/Hz must describe the deformed matrix, not the earlier one
+    cls_name, size, dname, daxis = common.parse_cfg(cfg0)
+    if dname:
+        import panqec.codes as pc_
+        warm = getattr(pc_, cls_name)(*size)
+        warm.stabilizer_matrix, warm.x_indices, warm.z_indices, warm.is_css
+        if warm.is_css:
+            warm.Hx, warm.Hz
+        warm.logicals_x, warm.logicals_z, warm.d
+        warm.deform(dname, **({'deformation_axis': daxis} if daxis else {}))
+        Hw = warm.stabilizer_matrix.toarray()
+        xw, zw = Hw[:, :n].any(axis=1), Hw[:, n:].any(axis=1)
+        wf = {
+            'H-equals-fresh-deformed': np.array_equal(Hw, H.toarray()),
+            'x-mask-describes-H': np.array_equal(np.asarray(warm.x_indices), xw),
+            'z-mask-describes-H': np.array_equal(np.asarray(warm.z_indices), zw),
+            'is_css-describes-H': bool(warm.is_css) == (not np.any(xw & zw)),
+            'logicals-equal-fresh-deformed': np.array_equal(warm.logicals_x, code.logicals_x) and
+            np.array_equal(warm.logicals_z, code.logicals_z),
+            'd-equals-fresh-deformed': int(warm.d) == int(code.d),
+        }
+        if bool(warm.is_css) and not np.any(xw & zw):
+            wf['Hx-Hz-are-masked-blocks'] = np.array_equal(warm.Hx.toarray(), Hw[xw][:, :n]) and \
+                np.array_equal(warm.Hz.toarray(), Hw[zw][:, n:])
+        for k_, ok in wf.items():
+            col.record(f'C02/warmed-then-deformed/{k_}', 'unsat' if ok else 'sat', 0, False,
+                       dict(fact='warmed-' + k_) if not ok else None,
+                       'object built undeformed, all derived data read, then deformed (ground fact)')
     lt.symbolize(code)
     groups = explore_stabilizer(code, cfg0, col)
     qdims = sorted({len(c) for c in qc})
@@ -404,6 +433,21 @@ def replay(path):
                     bad = list(code.extract_x_syndrome(se)) != list(code.extract_x_syndrome(sf))
                 else:
                     bad = list(code.extract_z_syndrome(se)) != list(code.extract_z_syndrome(sf))
+            elif 'warmed-then-deformed' in oid:
+                import panqec.codes as pc_
+                cls_name, size, dname, daxis = common.parse_cfg(cfg.split(' ', 1)[1])
+                warm = getattr(pc_, cls_name)(*size)
+                warm.stabilizer_matrix, warm.x_indices, warm.z_indices, warm.is_css
+                if warm.is_css:
+                    warm.Hx, warm.Hz
+                warm.logicals_x, warm.logicals_z, warm.d
+                warm.deform(dname, **({'deformation_axis': daxis} if daxis else {}))
+                Hw = warm.stabilizer_matrix.toarray()
+                xw, zw = Hw[:, :n].any(axis=1), Hw[:, n:].any(axis=1)
+                print('is_css', warm.is_css, 'should be', not np.any(xw & zw))
+                bad = (not np.array_equal(np.asarray(warm.x_indices), xw)) or (not np.array_equal(np.asarray(warm.z_indices), zw)) \
+                    or bool(warm.is_css) != (not np.any(xw & zw)) or not np.array_equal(Hw, code.stabilizer_matrix.toarray()) \
+                    or not np.array_equal(warm.logicals_x, code.logicals_x) or int(warm.d) != int(code.d)
             elif 'tables' in oid or 'css/' in oid:
                 bad = True      # ground fact recomputed by the worker on the real tables
         elif kind == 'bsf':
